@@ -4,6 +4,7 @@
 //! `v1::invoke_*` / `resume_receive` with a stub of the chain scheduler.
 mod mhost;
 mod progen;
+mod v0sim;
 mod v1sim;
 mod wasm;
 
@@ -45,6 +46,20 @@ impl Scenario for VScenario {
     fn execute(&self, plan: &v1sim::VPlan, rec: &mut Recorder) -> Option<Violation> { v1sim::execute(plan, rec) }
 
     fn shrink(&self, plan: &v1sim::VPlan) -> Vec<v1sim::VPlan> { v1sim::shrink(plan) }
+}
+
+struct ZScenario;
+
+impl Scenario for ZScenario {
+    type Plan = v0sim::ZPlan;
+
+    fn name(&self) -> &'static str { "chain-host-v0" }
+
+    fn generate(&self, rng: &mut Rng, tier: Tier) -> v0sim::ZPlan { v0sim::generate(rng, tier) }
+
+    fn execute(&self, plan: &v0sim::ZPlan, rec: &mut Recorder) -> Option<Violation> { v0sim::execute(plan, rec) }
+
+    fn shrink(&self, plan: &v0sim::ZPlan) -> Vec<v0sim::ZPlan> { v0sim::shrink(plan) }
 }
 
 fn main() {
@@ -115,6 +130,8 @@ fn main() {
             };
             let n = ctx.count(150_000, 6_000_000);
             ctx.run_batch(&vs, n);
+            let n = ctx.count(300_000, 10_000_000);
+            ctx.run_batch(&ZScenario, n);
             EngineInfo {
                 rule: "generated script contracts (straight-line sequences of v1 host calls with valid and hostile pointer / length / offset / handle arguments, re-entrant calls of the same instance that modify, only read, reject or trap, transfers, calls and queries answered by the chain stub as scripted, parameter sets P4-P7, initial state in memory or lazily loaded from the simulated disk) executed through v1::invoke_receive / resume_receive; energy exhaustion injected at seeded fractions of the energy the transaction needs; non-trivial = an interrupt, re-entry, rollback or energy cut happened, distinct by event-log fingerprint".into(),
                 explanation: "C14 (v1 interface): the invocation ends as success / reject / trap / out-of-energy (a panic or a bounds assertion is a violation); pointers or lengths outside memory trap; every result and every byte delivered to the contract, the return value, and the committed state and its hash equal the reference model of the host interface; budgets = used, used+17 change only the remainder; any smaller budget gives out-of-energy and leaves the original state untouched; fresh and stored artifact agree".into(),
@@ -128,7 +145,8 @@ fn main() {
                     "secp256k1 (always fails), ed25519-zebra (over dalek), slab, num_enum: stub crates; signature host functions are not exercised",
                 ],
                 assumptions: vec![
-                    "v0 host functions, upgrade, signature checks and hashing host functions are NOT exercised by this check".into(),
+                    "second batch (chain-host-v0): script contracts over the legacy host functions (write/load/resize_state, log_event, parameter access, accept/simple_transfer/send/combine) through v0::invoke_receive against a model of the flat state (16 KiB limit), logs and the action tree; observations are reported through two final log events".into(),
+                    "upgrade, policy sections, signature checks and hashing host functions are NOT exercised by this check".into(),
                     "the energy *amounts* are not compared with the cost schedule; only totality, monotonicity and the remainder".into(),
                     "commit rule of the stub: a successful re-entrant call that reports state_changed replaces the caller's state and resumes it with state_updated = true".into(),
                 ],
